@@ -104,9 +104,18 @@ def run_sampler(case, objects=None):
     except Exception as exc:
         return {'skip': 'read_fragments:' + type(exc).__name__}
     out['templates'] = {nm: graph_obs(g) for nm, g in fd.items()}
-    kwargs = dict(kwargs, all_atom=case['aa'], seed=case['seed'])
+    # how the caller constructs the sampler: all_atom given explicitly, or left to its DOCUMENTED default
+    # (True; only for all-atom cases), through the plain constructor or through from_fragment_string
+    ctor = case.get('ctor', 'explicit')
+    kwargs = dict(kwargs, seed=case['seed'])
+    if ctor in ('explicit', 'fromstr_explicit') or not case['aa']:
+        kwargs['all_atom'] = case['aa']
     try:
-        sampler = smod.MoleculeSampler(fd, **kwargs)
+        if ctor.startswith('fromstr'):
+            sampler = smod.MoleculeSampler.from_fragment_string(case['frags'], **kwargs)
+            out['templates'] = {nm: graph_obs(g) for nm, g in sampler.fragment_dict.items()}
+        else:
+            sampler = smod.MoleculeSampler(fd, **kwargs)
     except Exception as exc:
         out['exc'] = (type(exc).__name__, 0)
         return out
@@ -173,6 +182,14 @@ def run_sampler(case, objects=None):
     out['obs'] = [c[0] for c in calls]
     out['added'] = [c[2] for c in calls if c[2] is not None]
     out['unrecorded'] = rec.unrecorded
+    # the stop rule in exact rational arithmetic on the recorded (binary64 / int) masses
+    try:
+        from fractions import Fraction
+        ms = [Fraction(out['init']['masses'][nm]) for nm in out['added']]
+        tgt = Fraction(case['target'])
+        out['exact'] = [sum(ms, Fraction(0)) >= tgt, (not ms) or sum(ms[:-1], Fraction(0)) < tgt]
+    except (KeyError, TypeError, ValueError):
+        out['exact'] = []
     out['pre'] = snaps.get('pre')
     out['car'] = snaps.get('car')
     return out
@@ -224,7 +241,7 @@ def fr_lit(d):
 
 TRIVIAL = ('{| k_aa := false; k_frags := []; k_poly := []; k_fragreact := []; k_term := []; k_user_masses := None; '
            'k_target := (0x0p+0)%float; k_start := None; k_init := None; k_picks0 := []; k_steps := []; k_obs := []; '
-           'k_added := []; k_det := []; k_out := OExc (S "skip") 0 |}')
+           'k_added := []; k_det := []; k_exact := []; k_out := OExc (S "skip") 0 |}')
 
 
 def case_lit(case, impl, det=()):
@@ -247,7 +264,7 @@ def case_lit(case, impl, det=()):
     masses = case.get('masses')
     return ('{| k_aa := %s; k_frags := %s; k_poly := %s; k_fragreact := %s; k_term := %s; k_user_masses := %s; '
             'k_target := %s; k_start := %s; k_init := %s; k_picks0 := %s; k_steps := %s; k_obs := %s; k_added := %s; '
-            'k_det := %s; k_out := %s |}'
+            'k_det := %s; k_exact := %s; k_out := %s |}'
             % (lit.b(case['aa']), frags, fdict_lit(case['poly']), fr_lit(case['fragreact']),
                lit.lst([lit.s(x) for x in case['term']]),
                'None' if masses is None else '(Some %s)' % fdict_lit(masses),
@@ -255,7 +272,7 @@ def case_lit(case, impl, det=()):
                lit.lst([lit.nat(i) for i in impl.get('picks0', [])]),
                lit.lst([lit.lst([lit.nat(i) for i in st]) for st in impl.get('steps', [])]),
                obs, lit.lst([lit.s(x) for x in impl.get('added', [])]),
-               lit.lst([lit.b(x) for x in det]), outc))
+               lit.lst([lit.b(x) for x in det]), lit.lst([lit.b(x) for x in impl.get('exact', [])]), outc))
 
 
 # ------------------------------------------------------------------------------- generator
@@ -351,11 +368,52 @@ def rand_case(rng, mode=None):
         masses = {nm: rng.choice([rng.randint(5, 90), round(rng.uniform(5, 90), 2)]) for nm in names}
     target = rng.choice([0, -5, 20, 45, 60.5, 100, 100, 150, 150, 220, 220, 300, 300, 400])
     start = rng.choice(names) if rng.random() < 0.3 else None
+    # targets in near-coincidence with a reachable sum: all fragments get the same user mass m and the target
+    # is N*m moved by a relative 5e-6 / an absolute tiny amount, a rounded multiple (33.3333 x 3 vs 100), a
+    # huge mass with the target one unit above a multiple, or a tiny positive target
+    if rng.random() < 0.22:
+        m = rng.choice([33.3333, 100000, 250000, 1, 12.5, 0.1, 7])
+        masses = {nm: m for nm in names}
+        n = rng.randint(1, 5)
+        kind = rng.randrange(7)
+        if kind == 0:
+            target = n * m * (1 + 5e-6)
+        elif kind == 1:
+            target = n * m * (1 - 5e-6)
+        elif kind == 2:
+            target = n * m
+        elif kind == 3:
+            target = n * m + (1 if m >= 1e5 else 1e-9)
+        elif kind == 4:
+            target = round(n * m + 0.4999 * 10 ** -rng.choice([0, 1, 2, 3]), rng.choice([0, 1, 2, 3]))
+        elif kind == 5:
+            target = rng.choice([1e-9, 5e-9, 1e-12, 9.9e-9])
+        else:
+            target = sum([m] * n) + rng.choice([0.0, 1e-12 * m, -1e-12 * m])
+        if target > 8 * m:               # keep the molecule small
+            target = n * m
+    # how the sampler is constructed (see run_sampler)
+    if aa:
+        ctor = rng.choice(['explicit', 'explicit', 'default', 'default', 'fromstr', 'fromstr_explicit'])
+    else:
+        ctor = rng.choice(['explicit', 'explicit', 'explicit', 'fromstr_explicit'])
     return {'frags': frags, 'aa': aa, 'poly': poly, 'fragreact': fragreact, 'term': term, 'masses': masses,
-            'seed': rng.randint(0, 10 ** 6), 'target': target, 'start': start}
+            'seed': rng.randint(0, 10 ** 6), 'target': target, 'start': start, 'ctor': ctor}
 
 
 CORPUS = [
+    # all_atom left to its documented default (True) while fragment_masses are supplied
+    {'frags': '{#A=[$]CC[$],#B=[$]CO}', 'aa': True, 'poly': {}, 'fragreact': {}, 'term': [], 'masses': {'A': 28, 'B': 31},
+     'seed': 5, 'target': 100, 'start': 'A', 'ctor': 'default'},
+    {'frags': '{#A=[>]CC[<],#B=[<]N[>]}', 'aa': True, 'poly': {}, 'fragreact': {}, 'term': [], 'masses': {'A': 28.05, 'B': 15},
+     'seed': 6, 'target': 90, 'start': None, 'ctor': 'fromstr'},
+    # targets in near-coincidence with a reachable sum
+    {'frags': '{#A=[$][#X][$]}', 'aa': False, 'poly': {}, 'fragreact': {}, 'term': [], 'masses': {'A': 33.3333},
+     'seed': 1, 'target': 100, 'start': None, 'ctor': 'explicit'},
+    {'frags': '{#A=[$][#X][$]}', 'aa': False, 'poly': {}, 'fragreact': {}, 'term': [], 'masses': {'A': 100000},
+     'seed': 1, 'target': 300001, 'start': None, 'ctor': 'explicit'},
+    {'frags': '{#A=[$]CC[$]}', 'aa': True, 'poly': {}, 'fragreact': {}, 'term': [], 'masses': None,
+     'seed': 1, 'target': 1e-9, 'start': None, 'ctor': 'explicit'},
     {'frags': '{#A=[$A1]CC[$A2],#B=[$A1]=C[$A2]=C}', 'aa': True, 'poly': {'$A11': 1, '$A21': 1, '$A12': 1, '$A22': 1},
      'fragreact': {}, 'term': [], 'masses': None, 'seed': 2, 'target': 150, 'start': 'A'},
     {'frags': '{#A=[>B2][#X][<B2],#B=[<B2][#Y][>B2][$1]}', 'aa': False, 'poly': {}, 'fragreact': {}, 'term': ['$11'],
@@ -440,7 +498,9 @@ class SamplerProp(common.Prop):
             return '%s:outside-domain-or-exception:%s@%d' % (mode, impl['exc'][0], impl['exc'][1])
         n = len(impl.get('added', []))
         dig = ':digit-label' if re.search(r'\[[$<>][A-Za-z0-9]*[0-9]\]', case['frags']) else ''
-        return '%s:%s%s' % (mode, 'no-growth' if n == 0 else ('1-3 steps' if n <= 3 else '4+ steps'), dig)
+        ctor = case.get('ctor', 'explicit')
+        return '%s:%s%s%s' % (mode, 'no-growth' if n == 0 else ('1-3 steps' if n <= 3 else '4+ steps'), dig,
+                              '' if ctor == 'explicit' else ':' + ctor)
 
     def describe(self, case):
         return case
